@@ -425,6 +425,9 @@ def check(P: Project, R: Report) -> None:
     # broad `except Exception` does not catch CancelledError on supported Pythons (>= 3.8): nothing to check there
 
     # ------------------------------------------------------------------ R6
+    from .c11 import field_form_event_reset
+
+    field_form_event_reset(P, R, A.MOD_SSE, "R6")  # (a recogniser over (field, value) pairs, read before the buffer rules below)
     ps = [f for f in meths.values() if any(isinstance(n, (ast.AsyncFor,)) and "aiter_text" in ast.unparse(n.iter) for n in walk_local(f.node))]
     # httpx can cut the body into lines itself — where `str.splitlines()` would: at CR, LF, CRLF and also VT, FF, FS, GS, RS,
     # NEL (U+0085), LS (U+2028), PS (U+2029).  JSON may carry the last three raw inside a string, SSE ends lines at CR/LF only.
